@@ -589,3 +589,258 @@ pub fn minimise_and_store(f: ReplayFile, cand_path: &str, replay_dir: &str, work
     let _ = std::io::stderr().flush();
     ViolationReport { replay: path, line: line_v.line(), minimised, replay_confirmed: ok, steps_before, steps_after, shrink_evals: sh.evals }
 }
+
+// ---------------------------------------------------------------------------------------------
+// Engine W: cold worlds. A world is a fresh process that first populates the process-wide lazy
+// tables in a chosen order (from one or several simulated threads) and then runs an ordinary
+// scenario; every result is compared with the pristine-process reference table.
+
+pub struct WorldArgs {
+    pub verif_seed: u64,
+    pub worlds: u64,
+    pub pool_size: usize,
+    pub workers: usize,
+    pub work_dir: String,
+    pub replay_dir: String,
+    pub known_path: String,
+    pub out_path: String,
+}
+
+#[derive(Clone, Debug, Default, Serialize, Deserialize)]
+pub struct WorldsOut {
+    pub engine: String,
+    pub profile: String,
+    pub worlds: u64,
+    pub pool_ops: usize,
+    pub pristine_refs: usize,
+    pub orders_covered: u64,
+    pub prologue_variants: BTreeMap<String, u64>,
+    pub prefix_lengths: Vec<u64>,
+    pub stats: RunStats,
+    pub distinct_nontrivial: u64,
+    pub cross_world_groups: u64,
+    pub cross_world_log_mismatch: u64,
+    pub violations: Vec<ViolationReport>,
+    pub known_hits: BTreeMap<String, u64>,
+    pub harness_errors: Vec<String>,
+    pub wall_s: f64,
+    pub run_wall_s: f64,
+    pub samples: Vec<String>,
+}
+
+const PERMS: [[usize; 4]; 24] = [
+    [0, 1, 2, 3], [0, 1, 3, 2], [0, 2, 1, 3], [0, 2, 3, 1], [0, 3, 1, 2], [0, 3, 2, 1],
+    [1, 0, 2, 3], [1, 0, 3, 2], [1, 2, 0, 3], [1, 2, 3, 0], [1, 3, 0, 2], [1, 3, 2, 0],
+    [2, 0, 1, 3], [2, 0, 3, 1], [2, 1, 0, 3], [2, 1, 3, 0], [2, 3, 0, 1], [2, 3, 1, 0],
+    [3, 0, 1, 2], [3, 0, 2, 1], [3, 1, 0, 2], [3, 1, 2, 0], [3, 2, 0, 1], [3, 2, 1, 0],
+];
+pub const TABLE_NAMES: [&str; 4] = ["ORIGINS", "PENTAGON_CONSTANTS", "PATTERN_REVERSED", "PATTERN_FLIPPED_REVERSED"];
+
+/// Pool indices of ops that touch exactly one lazy table each.
+fn table_ops(pool: &Pool, refs: &[RefEntry]) -> Option<[Vec<u32>; 4]> {
+    let mut t: [Vec<u32>; 4] = [Vec::new(), Vec::new(), Vec::new(), Vec::new()];
+    for (i, p) in pool.ops.iter().enumerate() {
+        if refs[i].status != "ok" {
+            continue;
+        }
+        match &p.op {
+            Op::OriginsDigest | Op::FindNearestOrigin { .. } => t[0].push(i as u32),
+            Op::PentagonDigest | Op::FaceVertices => t[1].push(i as u32),
+            Op::IjToS { orient, .. } if matches!(orient % 6, 0 | 1 | 4 | 5) => t[2].push(i as u32),
+            Op::IjToS { orient, .. } if matches!(orient % 6, 2 | 3) => t[3].push(i as u32),
+            _ => {}
+        }
+    }
+    if t.iter().any(|v| v.is_empty()) {
+        None
+    } else {
+        Some(t)
+    }
+}
+
+fn world_file(g: &GenCtx, tables: &[Vec<u32>; 4], verif_seed: u64, w: u64) -> (ReplayFile, usize, usize, &'static str) {
+    let mut rng = crate::rng::Rng::new(derive(verif_seed, 0x776f_726c_6400 + w));
+    let perm_ix = (w % 24) as usize;
+    let prefix = if w < 72 { 4 } else { rng.below(5) as usize };
+    let variant = match (w / 24) % 3 {
+        0 => "one_thread_forced_order",
+        1 => "chained_threads_forced_order",
+        _ => "free_threads_scheduler_decides",
+    };
+    // several worlds share one main scenario, so that the same calls are seen after different
+    // population orders
+    let main_seed = scenario_seed(verif_seed, 0x5700_0000 + w / 6);
+    let mut main = generate(g, main_seed);
+    main.probe = rng.pct(50);
+    // prologue
+    let mut pro = Scenario {
+        seed: derive(verif_seed, 0x7072_6f00 + w),
+        ops: Vec::new(),
+        expected: Vec::new(),
+        foot: Vec::new(),
+        poison: Vec::new(),
+        threads: Vec::new(),
+        yield_mask: if variant == "free_threads_scheduler_decides" { (1 << a5::verif::site::ORIGINS_GET) | (1 << a5::verif::site::PENTAGON_GET) | (1 << a5::verif::site::HILBERT_PATTERN) } else { 0 },
+        preempt_pct: 50,
+        switch_pct: 50,
+        n_inst: 1,
+        n_crs: 1,
+        probe: false,
+        mode: format!("world_prologue:{}", variant),
+    };
+    for k in 0..prefix {
+        let table = PERMS[perm_ix][k];
+        let ix = *rng.pick(&tables[table]) as usize;
+        pro.ops.push(g.pool.ops[ix].op.clone());
+        pro.expected.push(g.refs[ix].outcome.clone().unwrap());
+        pro.foot.push(g.refs[ix].foot);
+        pro.poison.push(None);
+        let step = crate::scenario::Step { op: k as u32, repeat: 1, rekey: None };
+        match variant {
+            "one_thread_forced_order" => {
+                if pro.threads.is_empty() {
+                    pro.threads.push(crate::scenario::ThreadPlan { start: crate::scenario::Start::AtBegin, hash_key: 0, steps: Vec::new() });
+                }
+                pro.threads[0].steps.push(step);
+            }
+            "chained_threads_forced_order" => {
+                let start = if k == 0 { crate::scenario::Start::AtBegin } else { crate::scenario::Start::AfterExit((k - 1) as u8) };
+                pro.threads.push(crate::scenario::ThreadPlan { start, hash_key: 0, steps: vec![step] });
+            }
+            _ => {
+                pro.threads.push(crate::scenario::ThreadPlan { start: crate::scenario::Start::AtBegin, hash_key: 0, steps: vec![step] });
+            }
+        }
+    }
+    let mut scenarios = Vec::new();
+    if prefix > 0 {
+        scenarios.push(pro);
+    }
+    scenarios.push(main);
+    let f = ReplayFile {
+        property: "C13".into(),
+        engine: "W".into(),
+        verif_seed,
+        profile: profile_name().into(),
+        decisions: vec![Vec::new(); scenarios.len()],
+        scenarios,
+        violation: None,
+        minimised: false,
+        note: format!("world {}: order {:?} prefix {} variant {}", w, PERMS[perm_ix].iter().map(|t| TABLE_NAMES[*t]).collect::<Vec<_>>(), prefix, variant),
+    };
+    (f, perm_ix, prefix, variant)
+}
+
+pub fn worlds_main(b: &WorldArgs) -> WorldsOut {
+    use std::sync::atomic::{AtomicU64, Ordering};
+    use std::sync::{Arc, Mutex};
+    let t0 = Instant::now();
+    std::fs::create_dir_all(&b.work_dir).expect("work dir");
+    std::fs::create_dir_all(&b.replay_dir).expect("replay dir");
+    let mut out = WorldsOut { engine: "W".into(), profile: profile_name().into(), ..Default::default() };
+    out.stats.yield_hits = vec![0; N_SITES];
+    out.stats.yield_preempts = vec![0; N_SITES];
+    out.prefix_lengths = vec![0; 5];
+    let pool = pool::build(derive(b.verif_seed, 0x77706f6f6c), b.pool_size);
+    let ops: Vec<Op> = pool.ops.iter().map(|p| p.op.clone()).collect();
+    let refs = pristine_refs(&ops, b.workers);
+    out.pool_ops = pool.ops.len();
+    out.pristine_refs = refs.iter().filter(|r| r.status == "ok").count();
+    let known = load_known(&b.known_path);
+    let g = GenCtx::new(&pool, &refs);
+    let tables = match table_ops(&pool, &refs) {
+        Some(t) => t,
+        None => {
+            out.harness_errors.push("pool lacks a usable single-table op".into());
+            return out;
+        }
+    };
+    let trun = Instant::now();
+    let next = Arc::new(AtomicU64::new(0));
+    type Res = (u64, usize, usize, &'static str, String, Result<crate::replay::ExecOut, String>, u64);
+    let results: Arc<Mutex<Vec<Res>>> = Arc::new(Mutex::new(Vec::new()));
+    std::thread::scope(|s| {
+        for _ in 0..b.workers.max(1) {
+            let next = next.clone();
+            let results = results.clone();
+            let g = &g;
+            let tables = &tables;
+            s.spawn(move || loop {
+                let w = next.fetch_add(1, Ordering::Relaxed);
+                if w >= b.worlds {
+                    break;
+                }
+                let (f, perm, prefix, variant) = world_file(g, tables, b.verif_seed, w);
+                let path = format!("{}/world-{}.json", b.work_dir, w);
+                save(&path, &f);
+                let r = exec_file_fresh(&path, "seeded");
+                let main_hash = f.scenarios.last().map(|s| s.hash64()).unwrap_or(0);
+                if !matches!(&r, Ok(o) if o.violation.is_some()) {
+                    let _ = std::fs::remove_file(&path);
+                }
+                results.lock().unwrap().push((w, perm, prefix, variant, path, r, main_hash));
+            });
+        }
+    });
+    out.run_wall_s = trun.elapsed().as_secs_f64();
+    let mut results = std::mem::take(&mut *results.lock().unwrap());
+    results.sort_by_key(|r| r.0);
+    let mut orders = BTreeSet::new();
+    let mut nontrivial: HashSet<u64> = HashSet::new();
+    let mut groups: BTreeMap<u64, BTreeSet<u64>> = BTreeMap::new();
+    let mut seen_classes: Vec<Violation> = Vec::new();
+    for (w, perm, prefix, variant, path, r, main_hash) in results {
+        out.worlds += 1;
+        if prefix == 4 {
+            orders.insert(perm);
+        }
+        out.prefix_lengths[prefix] += 1;
+        *out.prologue_variants.entry(variant.to_string()).or_insert(0) += 1;
+        match r {
+            Err(e) => out.harness_errors.push(format!("world {}: {}", w, e)),
+            Ok(o) => {
+                if let Some(e) = &o.harness_error {
+                    out.harness_errors.push(format!("world {}: {}", w, e));
+                }
+                if let Some(s) = &o.stats {
+                    merge_stats(&mut out.stats, s);
+                    if s.thread_spawn_cold >= 2 && s.warm_hit_ops >= 1 {
+                        nontrivial.insert(main_hash ^ (perm as u64) << 56 ^ (prefix as u64) << 52 ^ o.sched_hashes.last().copied().unwrap_or(0).rotate_left(3));
+                    }
+                }
+                if o.violation.is_none() {
+                    if let Some(h) = o.log_hashes.last() {
+                        groups.entry(main_hash).or_default().insert(*h);
+                    }
+                }
+                if out.samples.len() < 2 {
+                    out.samples.push(format!("world {} order={:?} prefix={} variant={} main_scenario_hash={:#x} log_hash={:#x}", w, PERMS[perm].iter().map(|t| TABLE_NAMES[*t]).collect::<Vec<_>>(), prefix, variant, main_hash, o.log_hashes.last().copied().unwrap_or(0)));
+                }
+                if let Some(v) = &o.violation {
+                    if let Some(k) = known.iter().find(|k| k.matches(v)) {
+                        *out.known_hits.entry(k.id.clone()).or_insert(0) += 1;
+                    } else if !seen_classes.iter().any(|c| c.same_class(v)) && out.violations.len() < 3 {
+                        seen_classes.push(v.clone());
+                        if let Ok(mut f) = crate::replay::load(&path) {
+                            f.violation = Some(v.clone());
+                            f.decisions = o.decisions.clone();
+                            f.scenarios.truncate(o.scenario_index.map(|i| i + 1).unwrap_or(f.scenarios.len()));
+                            f.decisions.truncate(f.scenarios.len());
+                            save(&path, &f);
+                            out.violations.push(minimise_and_store(f, &path, &b.replay_dir, &b.work_dir));
+                        }
+                    }
+                }
+            }
+        }
+    }
+    out.orders_covered = orders.len() as u64;
+    out.distinct_nontrivial = nontrivial.len() as u64;
+    out.cross_world_groups = groups.len() as u64;
+    out.cross_world_log_mismatch = groups.values().filter(|s| s.len() > 1).count() as u64;
+    out.wall_s = t0.elapsed().as_secs_f64();
+    if !b.out_path.is_empty() {
+        std::fs::write(&b.out_path, serde_json::to_string_pretty(&out).unwrap()).expect("write worlds out");
+    }
+    out
+}
